@@ -51,10 +51,15 @@ func propC20(g *G, n int) {
 				case strings.HasPrefix(s, "I64:"):
 					args[k] = sI64(g.extremeInt())
 				case strings.HasPrefix(s, "S_Decimal:"):
-					if g.chance(0.5) {
+					switch g.pick(6) {
+					case 0, 1:
 						args[k] = dec{g.r.Uint64(), g.r.Uint64()}.String()
-					} else {
+					case 2, 3:
 						args[k] = g.decimal().String()
+					case 4: // moderate magnitudes: where the elementary functions and the conversions do real work
+						args[k] = []dec{g.expArg(), g.logArg(), g.log1pArg()}[g.pick(3)].String()
+					default:
+						args[k] = g.smallIntDec().String()
 					}
 				case strings.HasPrefix(s, "Bytes:"):
 					switch g.pick(4) {
